@@ -6,7 +6,8 @@ from vlib import Corr, Search, Failure
 ID = 'C23'
 LEVEL = 'other'
 PROPS = ['Props/C23.v']
-GEN = []
+from py2coq import containsorder
+GEN = [('Gen/ContainsOrder.v', containsorder.generate)]
 EXPLANATION = ('Two parts. (1) A Coq 8.16.1 proof, closed under the global context, of the pure lemma C23_batch_criteria: for every number of key '
                'columns, every non-empty batch of keys, every start offset and both values of row_value_syntax, the WHERE criteria built by '
                'construct_batchload_criteria_list (shapes: "=" per column, IN, row-value IN, OR of ANDs) are true of a row exactly when the row\'s key is '
@@ -15,8 +16,11 @@ EXPLANATION = ('Two parts. (1) A Coq 8.16.1 proof, closed under the global conte
                'real builder produces. (2) Everything else in the property (merging fetched rows into partially loaded objects and collections: '
                'Set.load, prefetch, seeds, lazy attributes) is NOT proved: generated programs are run on SQLite under five regimes (default, every '
                'attribute lazy, prefetch of every relation, nplus1_threshold=0, nplus1_threshold=10**9) and must produce identical observations. '
-               'That part is differential testing with a seeded generator; the level claimed is therefore "other", not "proof".')
+               'Also proved: membership answered from memory is never False after an in-session add and never True after a remove, for the check order of '
+               'SetInstance.__contains__ read from the source on every run (C23_contains_after_add / _remove). '
+               'The rest is differential testing with a seeded generator; the level claimed is therefore "other", not "proof".')
 TRUSTED = [
+    'tools/py2coq/containsorder.py (ast scan of the early-exit checks of SetInstance.__contains__, fail-closed) and the hand model Model/C23SetData.v of SetData / add / remove',
     'hand-written model Model/C23Batch.v of construct_batchload_criteria_list and of the meaning of EQ / IN / row-value IN / OR-of-ANDs on non-NULL integer keys',
     'implementation driver tools/c23_driver.py (five regimes as separate Database objects over identical data; SELECT counts via sqlite3 trace callback)',
     'the differential oracle compares canonicalised observations (sets sorted, objects as Class#pk, exceptions by class)',
@@ -85,9 +89,26 @@ def gen_program(rng):
             steps.append(['each', rng.choice(vars_['L' + kind]), what])
         elif r < 0.96 and vars_['S']:
             c = rng.random()
-            if c < 0.4 and courses: steps.append(['add', rng.choice(vars_['S']), list(rng.choice(courses)[:2])])
-            elif c < 0.7 and courses: steps.append(['remove', rng.choice(vars_['S']), list(rng.choice(courses)[:2])])
-            else: steps.append(['set_group', rng.choice(vars_['S']), rng.choice([None] + [g[0] for g in groups])])
+            sv = rng.choice(vars_['S'])
+            if not any(x[0] == 'get' and x[1] == sv for x in steps): continue
+            if c < 0.45 and courses:
+                # membership window: `x in c` / link change from either side / `x in c` again, nothing that queries in between
+                ck = list(rng.choice(courses)[:2])
+                if not any(x[0] == 'select' and x[2] == 'C' for x in steps): steps.append(['select', newvar('LC'), 'C', None])
+                side = rng.choice(['courses', 'students'])
+                def member():
+                    if side == 'courses': return ['coll', sv, 'courses', 'contains', ck]
+                    cv = next((x[1] for x in steps if x[0] == 'get' and x[2] == 'C' and x[3] == ck), None)
+                    spk = next(x[3] for x in steps if x[0] == 'get' and x[1] == sv)
+                    return None if cv is None else ['coll', cv, 'students', 'contains', spk]
+                if side == 'students' and member() is None: steps.append(['get', newvar('C'), 'C', ck])
+                steps.append(member())
+                for _ in range(rng.randint(1, 2)):
+                    steps.append([rng.choice(['add', 'add', 'add_rev', 'remove', 'remove_rev']), sv, ck])
+                    steps.append(member())
+            elif c < 0.6 and courses: steps.append([rng.choice(['add', 'add_rev']), sv, list(rng.choice(courses)[:2])])
+            elif c < 0.75 and courses: steps.append([rng.choice(['remove', 'remove_rev']), sv, list(rng.choice(courses)[:2])])
+            else: steps.append(['set_group', sv, rng.choice([None] + [g[0] for g in groups])])
         else:
             steps.append(['flush'])
     return {'data': data, 'steps': steps}
@@ -101,9 +122,21 @@ FIXED = [
                ['each', 'lg', ['students', 'list']], ['select', 'lc', 'C', None], ['each', 'lc', ['students', 'list']], ['each', 'lc', 'title']]},
     {'data': {'groups': [[1, 'g1']], 'students': [[1, 's1', 'n', 1], [2, 's2', None, 1]], 'courses': [['math', 1, 'T'], ['phys', 2, '']],
               'enrol': [[1, 'math', 1], [2, 'math', 1], [2, 'phys', 2]]},
-     'steps': [['get', 's', 'S', 1], ['ref', 'g', 's', 'group'], ['attr', 'g', 'name'], ['coll', 'g', 'students', 'contains', 2], ['coll', 'g', 'students', 'len'],
+     'steps': [['select', 'lc', 'C', None], ['get', 's', 'S', 1], ['ref', 'g', 's', 'group'], ['attr', 'g', 'name'], ['coll', 'g', 'students', 'contains', 2], ['coll', 'g', 'students', 'len'],
                ['add', 's', ['phys', 2]], ['coll', 's', 'courses', 'list'], ['get', 'c', 'C', ['phys', 2]], ['coll', 'c', 'students', 'list'],
                ['remove', 's', ['math', 1]], ['coll', 's', 'courses', 'count'], ['flush'], ['coll', 's', 'courses', 'list']]},
+    # membership windows: `x in c` (False, cached as absent) / link from this side or from the other side / `x in c` again, no query in between
+    {'data': {'groups': [], 'students': [[1, 's1', None, None], [2, 's2', None, None]], 'courses': [['math', 1, ''], ['chem', 1, ''], ['phys', 2, '']],
+              'enrol': [[1, 'math', 1], [2, 'math', 1]]},
+     'steps': [['select', 'lc', 'C', None], ['get', 's', 'S', 1], ['coll', 's', 'courses', 'contains', ['chem', 1]], ['add', 's', ['chem', 1]],
+               ['coll', 's', 'courses', 'contains', ['chem', 1]], ['coll', 's', 'courses', 'contains', ['phys', 2]], ['add_rev', 's', ['phys', 2]],
+               ['coll', 's', 'courses', 'contains', ['phys', 2]], ['coll', 's', 'courses', 'list'], ['remove', 's', ['chem', 1]],
+               ['coll', 's', 'courses', 'contains', ['chem', 1]]]},
+    {'data': {'groups': [], 'students': [[1, 's1', None, None], [2, 's2', None, None]], 'courses': [['math', 1, ''], ['chem', 1, '']],
+              'enrol': [[2, 'chem', 1], [1, 'math', 1]]},
+     'steps': [['select', 'ls', 'S', None], ['get', 'c', 'C', ['chem', 1]], ['get', 's', 'S', 1], ['coll', 'c', 'students', 'contains', 1],
+               ['add', 's', ['chem', 1]], ['coll', 'c', 'students', 'contains', 1], ['remove_rev', 's', ['chem', 1]], ['coll', 'c', 'students', 'contains', 1],
+               ['add_rev', 's', ['chem', 1]], ['coll', 'c', 'students', 'contains', 1], ['coll', 'c', 'students', 'list']]},
 ]
 
 
